@@ -15,7 +15,7 @@ def natural_static(prog, uid):
     """Outcome of a fault-free program: ('ret', value) | ('exc', name, args) | ('unpicklable',) | ('other',)."""
     for ins in prog:
         op = ins[0]
-        if op in ('tick', 'sleep', 'rss', 'until'):
+        if op in ('tick', 'sleep', 'rss', 'until', 'ignore_term'):
             continue
         if op == 'ret':
             return ('ret', ('v', uid, ins[1]))
@@ -101,6 +101,18 @@ def diagnose(W):
         queued = len(W.in_pipe.buf) > 0 or (W.pool is not None and W.pool._taskqueue.qsize() > 0) or th_stuck
         if recycled and live_n < pc['processes'] and queued:
             return 'recycled-after-close-not-replaced'
+    if W.closed_at is not None:
+        # the same for a worker that died (in a task) around/after close(): it is not replaced either, and jobs
+        # still queued for it are never run
+        died = [w for w in W.workers.values() if w['proc'].dead and w['proc'].status not in (('exit', 0),
+                                                                                              ('exit', EX_RECYCLE))
+                and (w['proc'].death_time is None or w['proc'].death_time >= W.closed_at[1] - 0.85)
+                and not any(tc['t0'][0] <= (w['proc'].death_step or 0) for tc in W.term_calls)]
+        live_n = W.marks.get('live_before_terminate', len(live))
+        th_stuck = any(a.kind == 'TaskHandler' and a.state != 'done' for a in k.actors)
+        queued = len(W.in_pipe.buf) > 0 or (W.pool is not None and W.pool._taskqueue.qsize() > 0) or th_stuck
+        if died and live_n < pc['processes'] and queued:
+            return 'died-after-close-not-replaced'
     # a queue lock still held by a process that is dead?
     locks = {getattr(W, 'outq_wlock_id', None): 'result-queue-write-lock',
              getattr(W, 'inq_rlock_id', None): 'task-queue-read-lock'}
@@ -153,6 +165,14 @@ def diagnose(W):
                     return 'nothreads-result-pipe-full-nobody-reads'
         return 'nothreads'
     return 'other'
+
+
+def _stuck_suffix(k, cause):
+    """A loss that is never reported in a run that is wedged for a diagnosed reason (nobody is left to reap the
+    worker) is a consequence of that reason; name it in the signature."""
+    if k.end_reason != 'quiescent' and cause.endswith('-after-close-not-replaced'):
+        return ':' + cause
+    return ''
 
 
 def human_status_of(status):
@@ -234,7 +254,7 @@ def judge(W):
                 bad('C01.a', 'unresolved:%s:%s' % (rec.kind, jc),
                     'job %r (%s) never reached a terminal outcome; observed %r' % (uid, rec.kind, rec.observed[-2:]))
                 if jc.startswith('worker-died'):
-                    bad('C04.e', 'loss-not-reported:%s' % rec.kind,
+                    bad('C04.e', 'loss-not-reported:%s%s' % (rec.kind, _stuck_suffix(k, cause)),
                         'job %r: its worker died (%s) and the handle never resolved' % (uid, jc))
             continue
         if rec.jobid in cache_ids and all_accepted(res) and end == 'quiescent':
@@ -408,12 +428,22 @@ def judge_imap(W, rec, ex, owners, cause):
     k = W.k
     if rec.observed and rec.observed[-1][1] == 'timeout':
         dead = unfinished_dead_owners(W, owners, k.steps)
-        jc = 'worker-died-in-task' if dead else ('never-accepted:' + cause if not owners
+        # losses the iterator did report already are not what it is waiting for
+        reported = 0
+        for o in rec.observed:
+            if o[1] == 'err':
+                inner = o[2].args[0] if getattr(o[2], 'args', None) else None
+                if exc_of(inner)[0] in ('WorkerLostError', 'Terminated'):
+                    reported += 1
+        dead = dead[reported:]
+        cs = rec.chunksize or 1
+        nparts = (len(rec.items) + cs - 1) // cs
+        jc = 'worker-died-in-task' if dead else ('never-accepted:' + cause if len(owners) < nparts
                                                  else 'accepted-not-finished:' + cause)
         W.bad('C01.a', 'unresolved:%s:%s' % (rec.kind, jc),
               'iterator of job %r stopped delivering: %r' % (rec.uid, [o[1] for o in rec.observed][-4:]))
         if dead:
-            W.bad('C04.e', 'loss-not-reported:%s' % rec.kind,
+            W.bad('C04.e', 'loss-not-reported:%s%s' % (rec.kind, _stuck_suffix(k, cause)),
                   'job %r: a worker died inside an item and the iterator never reported it' % rec.uid)
     # one outcome per part: when the iterator has ended, every part whose worker wrote its result was
     # delivered, and every part lost with its worker was reported exactly once (never another part's)
